@@ -1,5 +1,5 @@
 (* C05 — string round trip: parsing what was serialised gives back the same value. *)
-From UL Require Import Bytes Subtags LangId Grammar LangIdSpec LangIdProofs CanonProofs.
+From UL Require Import Bytes Subtags LangId Ext Grammar LangIdSpec LocaleInv LangIdProofs CanonProofs InvProofs RoundTrip.
 
 Theorem C05_language : forall l, canon_lang l = true -> language_from_bytes (language_text l) = Ok l.
 Proof. exact language_roundtrip. Qed.
@@ -26,6 +26,22 @@ Proof. exact langid_parse_inv. Qed.
 Theorem C05_idempotent_langid : forall s t, li_canonicalize s = Ok t -> li_canonicalize t = Ok t.
 Proof. exact li_canonicalize_idem. Qed.
 
+(* Locale and ExtensionsMap: every value satisfying the safe-API invariant (C04_reach_*, C10_inv)
+   re-parses from its own string to itself - in particular a locale with tfields AND a -u- / -x-
+   extension (the shape that failed before the repair of the tfield loop) *)
+Theorem C05_locale : forall l, loc_inv l = true -> locale_from_bytes (loc_to_string l) = Ok l.
+Proof. exact locale_roundtrip. Qed.
+Theorem C05_extmap : forall e, ext_inv e = true -> extmap_from_bytes (ext_to_string e) = Ok e.
+Proof. exact extmap_roundtrip. Qed.
+Theorem C05_locale_reach : forall s l, locale_from_bytes s = Ok l -> loc_inv l = true.
+Proof. exact locale_parse_inv. Qed.
+Theorem C05_idempotent_locale : forall s t, loc_canonicalize s = Ok t -> loc_canonicalize t = Ok t.
+Proof. exact loc_canonicalize_idem. Qed.
+
+Print Assumptions C05_locale.
+Print Assumptions C05_extmap.
+Print Assumptions C05_locale_reach.
+Print Assumptions C05_idempotent_locale.
 Print Assumptions C05_language.
 Print Assumptions C05_script.
 Print Assumptions C05_region.
